@@ -338,6 +338,27 @@ def sentinel_discipline(prog, f, maybe_params=(), extra_arrays=()):
         for test, pol in astutil.guards(n, pm):
             if sanitising_guard(test, pol, text):
                 return True
+        # guard clause: an earlier sibling `if <value is the sentinel>: continue / break / return / raise` in an enclosing block,
+        # with no re-definition of the value between the guard and the use
+        st = enclosing_stmt(n)
+        cur = st
+        while cur in pm:
+            par = pm[cur]
+            for field in ('body', 'orelse', 'finalbody'):
+                blk = getattr(par, field, None)
+                if isinstance(blk, list) and any(x is cur for x in blk):
+                    idx = [i for i, x in enumerate(blk) if x is cur][0]
+                    for gi in range(idx - 1, -1, -1):
+                        g = blk[gi]
+                        if isinstance(g, ast.If) and not g.orelse and g.body and isinstance(g.body[-1], (ast.Continue, ast.Break, ast.Return, ast.Raise)) \
+                                and sanitising_guard(g.test, False, text):
+                            redefined = any(isinstance(x, (ast.Assign, ast.AugAssign)) and any(norm(t) == text for t in (x.targets if isinstance(x, ast.Assign) else [x.target]))
+                                            for between in blk[gi + 1:idx] for x in ast.walk(between))
+                            if not redefined:
+                                return True
+            if isinstance(par, (ast.FunctionDef, ast.AsyncFunctionDef)):
+                break
+            cur = par
         # sequential guard inside a loop body: `if not kept...: continue` is not about the value; only value guards count
         return False
 
